@@ -22,7 +22,7 @@ for prop in ['C17', 'C12', 'C02']:
             m = re.match(r'\[sig (result-depends-on-memo-eviction/in=[0-9a-f]{16}|in=[0-9a-f]{16}/[a-z0-9-]+)\]', d)
             if m:
                 what = re.search(r'source: (".{0,90})', d)
-                lines.add('finding: property=%s sig=%s memo-dependent result (F10, see the general C17 entry); %s' % (prop, m.group(1), (what.group(1) if what else '')))
+                lines.add('finding: property=%s sig=%s memo-dependent result (F10 / F11, see the general C17 entries); %s' % (prop, m.group(1), (what.group(1) if what else '')))
 block = B + ''.join(sorted(l + '\n' for l in lines)) + E
 open(kf, 'w').write(s + block)
 print('listed', len(lines), 'memo-dependent cases')
